@@ -1,6 +1,6 @@
 """What is claimed, per property. A property appears in CLAIMS only once its checker exists and
 passes on the unchanged tree."""
-FIX_COMMITS = ["4e9e139", "5ee6583", "744f482", "eb93a13", "ceb972a", "a924d81", "2127bcd", "d45c8ce", "840f793", "c6f0e0e", "026690a", "cee72dd", "d6006a0", "846c668", "74129bf", "7f18343", "8354688", "82fa6bb", "6319c34", "33ebaa4", "1e65682", "d23cb3d", "8d23fc0", "35e79d8"]
+FIX_COMMITS = ["4e9e139", "5ee6583", "744f482", "eb93a13", "ceb972a", "a924d81", "2127bcd", "d45c8ce", "840f793", "c6f0e0e", "026690a", "cee72dd", "d6006a0", "846c668", "74129bf", "7f18343", "8354688", "82fa6bb", "6319c34", "33ebaa4", "1e65682", "d23cb3d", "8d23fc0", "35e79d8", "36df0dd", "6dde094", "fd9c08b", "1b70461", "8854632", "4974803", "5139c33", "e00fad1", "fbec162", "23eb645", "274cad8"]
 
 CLAIMS = {
     "C09": dict(
@@ -223,4 +223,22 @@ ADDENDA = {
     "C19": "A module that is found but fails while importing (ImportError) counts as a module that cannot be imported.",
 }
 for _k, _v in ADDENDA.items():
+    CLAIMS[_k]["text"] = CLAIMS[_k]["text"].rstrip() + " " + _v
+ADDENDA2 = {
+    "C01": "EP-OPERAND also demands that every logical operator (negation included) counts as a condition position and that no result is flagged from sticky node state; "
+           "EP-QUANT: every logical operator can report falsity and exists() is keyed by the free variables; EP-EMPTY: loops over child results may run zero times.",
+    "C02": "The filter that decides what counts as a variable of a side of or_ is evaluated on model nodes (domain variable kept, literal and call dropped); DOMAIN-CACHE is shared.",
+    "C07": "Substring membership is never translated with a LIKE-family operator (SQL-MEMBERSHIP); a second equality between joined variables stays a condition and a join under a disjunction is rejected.",
+    "C08": "Selection of alternative / next_rule conclusions is an extracted decision table; the side flags are scoped; the abstract heap carries the evaluation-time parent and runs pairs of routines.",
+    "C09": "Every quantifier construction of the shared builder helper forwards the constraint on every path.",
+    "C10": "A domain mapping never materialises the value it maps.",
+    "C11": "DOMAIN-CACHE and EP-QUANT are shared (pattern domains are variable domains; match_any compiles to exists).",
+    "C12": "EP-OPERAND is shared: a call's result is flagged from its truth only in condition position.",
+    "C13": "DOMAIN-CACHE is shared.",
+    "C15": "PD-CLOSURE and PD-OWNER work on a symbolic summary of the whole update procedure (methods inlined, loops run once with a generic element) instead of method shapes.",
+    "C17": "Two classification-only categories (collection of enum members, Type[Enum]) are in the oracle table.",
+    "C19": "The registry is looked up by exactly the resolved class (JS-REGISTRY).",
+    "C20": "cached_property values are fields of the heap graph.",
+}
+for _k, _v in ADDENDA2.items():
     CLAIMS[_k]["text"] = CLAIMS[_k]["text"].rstrip() + " " + _v
